@@ -20,18 +20,18 @@ META = dict(
 
 
 def run(ctx):
-    answercheck.sweep(ctx, "C05", 45 if ctx.quick else 800, 8, judge_sat=False, judge_unsat=False, compare_configs=True, embed=True,
+    answercheck.sweep(ctx, "C05", 45 if ctx.quick else 360, 8, judge_sat=False, judge_unsat=False, compare_configs=True, embed=True,
                       gen_kwargs=dict(p_incremental=0.3, p_big=0.2), all_configs=not ctx.quick)
 
     # dense in the special top-level shapes (equality diamonds, distinct after merges, Bool-argument UFs): pure UF and UF+arithmetic
-    answercheck.sweep(ctx, "C05", 40 if ctx.quick else 800, 5, judge_sat=False, judge_unsat=False, compare_configs=True, embed=True,
+    answercheck.sweep(ctx, "C05", 40 if ctx.quick else 320, 5, judge_sat=False, judge_unsat=False, compare_configs=True, embed=True,
                       gen_kwargs=dict(p_incremental=0.3, p_big=0.0, p_special=0.6, stream=1), logics=["QF_UF", "QF_UF", "QF_UF", "QF_UFLIA", "QF_UFLRA"])
 
     # directed family: difference logic with constants at the word / double / int64 boundaries, stated in QF_IDL/QF_RDL
     # and in the embedding logic QF_LIA/QF_LRA
     import C02
     import solvercheck as sc
-    for text, logic, c in C02.dl_boundary_scripts(ctx.rng, 24 if ctx.quick else 400):
+    for text, logic, c in C02.dl_boundary_scripts(ctx.rng, 24 if ctx.quick else 200):
         res = {}
         for lg in (logic, answercheck.EMBED[logic]):
             t = answercheck.with_options(text, [], lg)
@@ -45,7 +45,7 @@ def run(ctx):
 
     # directed family: uninterpreted symbols over Bool arguments (Booleans seen only by the theory solver), default vs
     # non-incremental (SatELite preprocessing) vs lookahead
-    bu = C02.bool_uf_scripts(ctx.rng, 70 if ctx.quick else 1400)
+    bu = C02.bool_uf_scripts(ctx.rng, 70 if ctx.quick else 560)
     cfgs = ["default", "non-incremental", "no-subst", "proofs"]
     bu = [(t, lg) for t, lg in bu if "(push" not in t and t.count("(check-sat)") == 1]     # non-incremental mode: one query
     jobs = [(t, c, answercheck.CONFIGS[c], None, 10, False, False, lg) for t, lg in bu for c in cfgs]
